@@ -18,8 +18,9 @@ What is modelled exactly: the **selection tests** of every loop (same tests, sam
 object itself, which context object they carry), the **exception** a selected value can raise, the
 `output` sub-context (it drives the selection of the next element of an output pipeline) and the
 **file system** (files with contents and logical modification times, directories).
-What is abstracted: the *payload* of produced data — a CSV or LaTeX text is `Data.text kind src`
-("the text of that kind made from the value with identity `src`"), a graph is `Data.graph src`,
+What is abstracted: the *payload* of produced data — a CSV or LaTeX text is `Data.text kind src lines`
+("the text of that kind made from the value with identity `src`", with its number of lines for CSV —
+that is where `duplicate_last_bin` and the header show), a graph is `Data.graph src n`,
 context entries written by third parties (`histogram`, `value`, `bins`, `bin`, `group`) are
 `CV.opaque`; the converters `pdflatex` / `pdftoppm` are stubs that write their output file.
 
@@ -147,8 +148,9 @@ structure HistD where
 inductive Data where
   | int (i : Int)
   | str (s : String)
-  /-- a text produced by an element (`isinstance(data, str)`): kind `"csv"`/`"tex"`, made from `src` -/
-  | text (kind : String) (src : Tok)
+  /-- a text produced by an element (`isinstance(data, str)`): kind `"csv"`/`"tex"`, made from `src`;
+  `lines`: its number of lines (CSV; 0 = not modelled) -/
+  | text (kind : String) (src : Tok) (lines : Nat)
   /-- a foreign object of class `cls` (None, float, object(), bytes, a bare dict …); `iter`: has `__iter__` -/
   | other (cls : String) (id : Nat) (iter : Bool)
   /-- a Python list (`isTuple = false`) or tuple that is not a `(data, context)` pair -/
@@ -158,8 +160,8 @@ inductive Data where
   /-- an object with a callable `rows()`; `upd`: it also has a callable `_update_context` -/
   | rows (id : Nat) (k : RowsKind) (upd : Bool)
   | hist (h : HistD)
-  /-- a graph produced by `HistToGraph` from the value `src` -/
-  | graph (src : Tok)
+  /-- a graph produced by `HistToGraph` from the value `src`, with `n` points -/
+  | graph (src : Tok) (n : Nat)
 
 /-- a context dictionary object: identity and content -/
 structure Ctx where
@@ -196,7 +198,7 @@ def Item.withDict (v : Item) (d : Dict) : Item :=
 
 def Data.isStr : Data → Bool
   | .str _ => true
-  | .text _ _ => true
+  | .text _ _ _ => true
   | _ => false
 
 def Data.isHist : Data → Bool
@@ -206,10 +208,10 @@ def Data.isHist : Data → Bool
 /-- `hasattr(data, "__iter__")` -/
 def Data.hasIter : Data → Bool
   | .str _ => true
-  | .text _ _ => true
+  | .text _ _ _ => true
   | .other _ _ it => it
   | .seq _ _ => true
-  | .graph _ => true
+  | .graph _ _ => true
   | _ => false
 
 /-! ## Runs -/
@@ -351,11 +353,14 @@ def FS.makedirs (fs : FS) (p : String) : FS :=
 
 /-! ## `ToCSV.run` (to_csv.py:248-337) -/
 
-/-- `data.rows()` exists and is callable: what it returns, and whether `data._update_context` adds to the
-context (a graph made by `HistToGraph` has no error fields: its `_update_context` does nothing) -/
-def Data.rowsInfo : Data → Option (RowsKind × Bool)
-  | .rows _ k upd => some (k, upd)
-  | .graph _ => some (.ok, false)
+/-- `data.rows()` exists and is callable: what it returns, whether `data._update_context` adds to the
+context (a graph made by `HistToGraph` has no error fields: its `_update_context` does nothing), and the
+number of rows -/
+def Data.rowsInfo : Data → Option (RowsKind × Bool × Nat)
+  | .rows _ k upd => some (k, upd, match k with
+      | .ok => 2
+      | _ => 0)
+  | .graph _ n => some (.ok, false, n)
   | _ => none
 
 def Data.hasRows (d : Data) : Bool := d.rowsInfo.isSome
@@ -374,32 +379,51 @@ def toCSVSel (v : Item) : Bool :=
       | .hist h => h.dim == 1 || h.dim == 2
       | d => d.hasRows)
 
+/-- `ToCSV(header=…, duplicate_last_bin=…)`: the settings that show in the shape of the text -/
+structure CsvCfg where
+  dupLast : Bool
+  header : Bool
+
+def b2n (b : Bool) : Nat := if b then 1 else 0
+
+/-- number of lines of the CSV text of a histogram (`hist1d_to_csv`, `hist2d_to_csv`) -/
+def csvLines (h : HistD) (dup header : Bool) : Nat :=
+  b2n header +
+    (match h.shape with
+     | [n] => n + b2n dup
+     | [n, m] => (n + b2n dup) * (m + b2n dup)
+     | _ => 0)
+
 /-- the loop body of `ToCSV.run` -/
-def toCSVStep {σ : Type} (s : σ) (v : Item) : Step σ Item :=
+def toCSVStep {σ : Type} (cfg : CsvCfg) (s : σ) (v : Item) : Step σ Item :=
   let c := v.ctxOr 0
   -- `if not get_recursively(context, "output.to_csv", True): yield val; continue`
   if !csvAllowed c.d then pass s v
   else
     match v.data with
     | .hist h =>
+      -- "context duplicate_last_bin has higher priority than that of ToCSV": read from THIS value's context
+      let dup := match getRec c.d ["output", "duplicate_last_bin"] with
+        | some x => x.truthy
+        | none => cfg.dupLast
       if h.dim == 1 then
         -- `hist1d_to_csv`: `float(bin_content)` raises TypeError → LenaTypeError for non-numbers
         if h.bin == .num then
           let d1 := setKey c.d "histogram" (.opaque "histogram")
           let d2 := updPath d1 ["output", "filetype"] (.str "csv")
-          ⟨[mk v 0 (.text "csv" v.tok) ⟨c.tok, d2⟩], s, none⟩
+          ⟨[mk v 0 (.text "csv" v.tok (csvLines h dup cfg.header)) ⟨c.tok, d2⟩], s, none⟩
         else ⟨[], s, some .lenaTypeError⟩
       else if h.dim == 2 then
         -- `"{:f}".format(bin_content)` raises TypeError for non-numbers
         if h.bin == .num then
           let d1 := setKey c.d "histogram" (.opaque "histogram")
           let d2 := updPath d1 ["output", "filetype"] (.str "csv")
-          ⟨[mk v 0 (.text "csv" v.tok) ⟨c.tok, d2⟩], s, none⟩
+          ⟨[mk v 0 (.text "csv" v.tok (csvLines h dup cfg.header)) ⟨c.tok, d2⟩], s, none⟩
         else ⟨[], s, some .typeError⟩
       else pass s v          -- warning "not implemented"; `yield val`
     | d =>
       match d.rowsInfo with
-      | some (k, upd) =>
+      | some (k, upd, nrows) =>
         -- `rows = iterable_to_table(...)` is a generator object: always truthy, `TypeError` cannot be
         -- raised at its creation; it is raised, uncaught, when the lines are joined
         match k with
@@ -407,7 +431,7 @@ def toCSVStep {σ : Type} (s : σ) (v : Item) : Step σ Item :=
         | _ =>
           let d1 := if upd then setKey c.d "value" (.opaque "value") else c.d
           let d2 := updPath d1 ["output", "filetype"] (.str "csv")
-          ⟨[mk v 0 (.text "csv" v.tok) ⟨c.tok, d2⟩], s, none⟩
+          ⟨[mk v 0 (.text "csv" v.tok (b2n cfg.header + nrows)) ⟨c.tok, d2⟩], s, none⟩
       | none => pass s v      -- `data.rows()` raised AttributeError: unknown type, `yield val`
 
 /-! ## `Write.run` (write.py:126-290) -/
@@ -480,7 +504,7 @@ def makeFilename (cfg : WriteCfg) (outputc : Dict) : Except Exc (String × CV ×
 /-- the content `fil.write(data)` puts into a file -/
 def Data.content : Data → Content
   | .str s => .lit s
-  | .text k t => .text k t
+  | .text k t _ => .text k t
   | .writable id => .byObj id
   | _ => .lit ""
 
@@ -571,7 +595,7 @@ def renderStep {σ : Type} (cfg : RenderCfg) (s : σ) (v : Item) : Step σ Item 
         let c := v.ctxOr 0
         let d1 := updPath c.d ["output", "filetype"] (.str "tex")
         let d2 := updPath d1 ["output", "fileext"] (.str "tex")
-        ⟨[mk v 0 (.text "tex" v.tok) ⟨c.tok, d2⟩], s, none⟩
+        ⟨[mk v 0 (.text "tex" v.tok 0) ⟨c.tok, d2⟩], s, none⟩
   else pass s v
 
 /-! ## `PDFToPNG.run` (pdf_to_png.py:78-107) -/
@@ -605,7 +629,7 @@ def pngStep (cfg : PngCfg) (fs : FS) (v : Item) : Step FS Item :=
         else
           let o2 := setKey o1 "changed" (.bool false)
           ⟨[mk v 0 (.str target) ⟨c.tok, setKey c.d "output" (.dict o2)⟩], fs, none⟩
-      | .text _ _ => ⟨[], fs, some .unmodelled⟩
+      | .text _ _ _ => ⟨[], fs, some .unmodelled⟩
       | _ => ⟨[], fs, some .attributeError⟩        -- `pdf_name.replace`
     | _ => ⟨[], fs, some .unmodelled⟩               -- unreachable: `pngSel` found `output.filetype`
   else pass fs v
@@ -627,7 +651,9 @@ def histToGraphStep {σ : Type} (s : σ) (v : Item) : Step σ Item :=
   if !v.data.isHist || !graphAllowed c.d then pass s v
   else
     -- `update_nested("value", context, bin_context)`
-    ⟨[mk v 0 (.graph v.tok) ⟨c.tok, setKey c.d "value" (.opaque "value")⟩], s, none⟩
+    ⟨[mk v 0 (.graph v.tok (match v.data with
+        | .hist h => h.shape.foldl (· * ·) 1
+        | _ => 0)) ⟨c.tok, setKey c.d "value" (.opaque "value")⟩], s, none⟩
 
 /-! ## bins of a histogram -/
 
@@ -720,7 +746,7 @@ def mapBinsSel (selectBins : BinKind → Bool) (v : Item) : Bool :=
 
 /-- `for new_bins in generators: … yield (new_hist, new_context)`, rounds `k, k+1, …` (fuel = an upper
 bound on the number of rounds) -/
-def mapBinsRounds {σ : Type} (v : Item) (h : HistD) (d : Dict) (res : List CellRes) (s : σ) :
+def mapBinsRounds {σ : Type} (dropCtx : Bool) (v : Item) (h : HistD) (d : Dict) (res : List CellRes) (s : σ) :
     Nat → Nat → List Item → Step σ Item
   | 0, _, acc => ⟨acc.reverse, s, none⟩
   | fuel + 1, k, acc =>
@@ -733,15 +759,18 @@ def mapBinsRounds {σ : Type} (v : Item) (h : HistD) (d : Dict) (res : List Cell
         | x :: _ => x.dict
         | [] => []
       let d' := if !binCtx.isEmpty then setKey d "value" (.opaque "value") else d
-      -- the new histogram holds the data parts of the results (`drop_bins_context=True`)
+      -- the new histogram holds the data parts of the results (`drop_bins_context=True`) or the results as
+      -- they are, context included
       let kind : BinKind := match items with
-        | x :: _ => binKindOf x.data
+        | x :: _ => if !dropCtx && x.ctx.isSome && binKindOf x.data == .num then .pair else binKindOf x.data
         | [] => .num
       let y : Item := ⟨.made v.tok (2 * k), .hist ⟨0, h.dim, h.shape, kind⟩, some ⟨.made v.tok (2 * k + 1), d'⟩⟩
-      mapBinsRounds v h d res s fuel (k + 1) (y :: acc)
+      mapBinsRounds dropCtx v h d res s fuel (k + 1) (y :: acc)
 
-/-- the loop body of `MapBins.run`; `inner cell` = what the (deep-copied) sequence yields for `[cell]` -/
-def mapBinsStep {σ : Type} (selectBins : BinKind → Bool) (inner : Item → CellRes) (s : σ) (v : Item) :
+/-- the loop body of `MapBins.run`; `inner cell` = what the (deep-copied) sequence yields for `[cell]`,
+`dropCtx` = `drop_bins_context` -/
+def mapBinsStep {σ : Type} (selectBins : BinKind → Bool) (inner : Item → CellRes) (dropCtx : Bool) (s : σ)
+    (v : Item) :
     Step σ Item :=
   match v.data with
   | .hist h =>
@@ -749,7 +778,7 @@ def mapBinsStep {σ : Type} (selectBins : BinKind → Bool) (inner : Item → Ce
     else
       let res := (List.range h.ncells).map (fun i => inner (cell v h i))
       let bound := (res.map (fun r => r.1.length)).foldl max 0 + 1
-      mapBinsRounds v h v.dict res s bound 0 []
+      mapBinsRounds dropCtx v h v.dict res s bound 0 []
   | _ => pass s v
 
 /-! ## `RunIf.run` (flow/elements.py:201-220) -/
@@ -782,6 +811,49 @@ def runMembers {σ : Type} (inner : σ → List Item → Step σ Item) (v : Item
 def transposeK (newVals : List (List Item)) (k : Nat) : List Data :=
   newVals.filterMap (fun r => (r[k]?).map (·.data))
 
+/-- `_update_with_group` (group_plots.py:70-90): the new `output.changed` from the values found in the common
+context and in the group contexts (`none` = leave it alone).  The values are put into a `set`: an unhashable
+one raises `TypeError`; `False in all_changed` also finds `0`. -/
+def groupChanged (vals : List (Option CV)) : Except Exc (Option Bool) :=
+  if vals.any (fun x => match x with
+      | some (.list _) => true
+      | some (.dict _) => true
+      | _ => false) then .error .typeError
+  else if vals.any (fun x => match x with
+      | some (.opaque _) => true
+      | _ => false) then .error .unmodelled
+  else if vals.any (fun x => match x with
+      | some v => v.truthy
+      | none => false) then .ok (some true)
+  else if vals.any (fun x => match x with
+      | some (.bool false) => true
+      | some (.int 0) => true
+      | _ => false) then .ok (some false)
+  else .ok none
+
+/-- the context of the `k`-th value yielded for a group: `output.changed` set from the group, `group` replaced
+(the common part of the group contexts does not change under the modelled inner sequences) -/
+def groupCtx (d : Dict) (newVals : List (List Item)) (k : Nat) : Except Exc Dict :=
+  let vals := getRec d ["output", "changed"] ::
+    newVals.filterMap (fun r => (r[k]?).map (fun y => getRec y.dict ["output", "changed"]))
+  match groupChanged vals with
+  | .error e => .error e
+  | .ok (some b) => .ok (setKey (updPath d ["output", "changed"] (.bool b)) "group" (.opaque "group"))
+  | .ok none => .ok (setKey d "group" (.opaque "group"))
+
+/-- the values yielded for a group, `k = from … n-1`; an exception in `_update_with_group` ends the run after
+the values yielded before -/
+def groupOut (v : Item) (c : Ctx) (newVals : List (List Item)) (n : Nat) :
+    Nat → Nat → List Item → (List Item × Option Exc)
+  | 0, _, acc => (acc.reverse, none)
+  | fuel + 1, k, acc =>
+    match groupCtx c.d newVals k with
+    | .error e => (acc.reverse, some e)
+    | .ok d' =>
+      let ctok := if k + 1 == n then c.tok else Tok.made v.tok (2 * k + 1)
+      groupOut v c newVals n fuel (k + 1)
+        ((⟨.made v.tok (2 * k), .seq false (transposeK newVals k), some ⟨ctok, d'⟩⟩ : Item) :: acc)
+
 /-- the loop body of `MapGroup.run` (`map_scalars=False`) -/
 def mapGroupStep {σ : Type} (inner : σ → List Item → Step σ Item) (s : σ) (v : Item) : Step σ Item :=
   match v.ctx with
@@ -809,11 +881,8 @@ def mapGroupStep {σ : Type} (inner : σ → List Item → Step σ Item) (s : σ
                 let n := first.length
                 if !rest.all (fun r => r.length == n) then ⟨[], s', some .lenaRuntimeError⟩
                 else
-                  let d' := setKey c.d "group" (.opaque "group")
-                  ⟨(List.range n).map (fun k =>
-                      let ctok := if k + 1 == n then c.tok else Tok.made v.tok (2 * k + 1)
-                      (⟨.made v.tok (2 * k), .seq false (transposeK newVals k), some ⟨ctok, d'⟩⟩ : Item)),
-                    s', none⟩
+                  let r := groupOut v c newVals n n 0 []
+                  ⟨r.1, s', r.2⟩
         | _, _ => ⟨[], s, some .unmodelled⟩
 
 /-! ## `LaTeXToPDF.run` (latex_to_pdf.py:56-203)
@@ -918,7 +987,7 @@ def pdfDecide (overwrite : Bool) (fs : FS) (v : Item) : PdfDec :=
         else
           let o2 := setKey o1 "changed" (.bool true)
           .launch pdf texName ⟨c.tok, setKey c.d "output" (.dict o2)⟩
-    | .text _ _ => .err .unmodelled
+    | .text _ _ _ => .err .unmodelled
     | _ => .err .attributeError                       -- `texfile_name.replace`
   | _ => .err .unmodelled                              -- unreachable: `pdfSel` found `output.filetype`
 
@@ -1043,14 +1112,14 @@ def liftFS {ω : Type} (get : ω → FS) (set : ω → FS → ω) (f : FS → It
 
 /-! ## the elements as loops -/
 
-def toCSVRun {σ : Type} : σ → List Item → Run σ Item := loop toCSVStep
+def toCSVRun {σ : Type} (cfg : CsvCfg) : σ → List Item → Run σ Item := loop (toCSVStep cfg)
 def writeRun (cfg : WriteCfg) : FS → List Item → Run FS Item := loop (writeStep cfg)
 def renderRun {σ : Type} (cfg : RenderCfg) : σ → List Item → Run σ Item := loop (renderStep cfg)
 def pngRun (cfg : PngCfg) : FS → List Item → Run FS Item := loop (pngStep cfg)
 def histToGraphRun {σ : Type} : σ → List Item → Run σ Item := loop histToGraphStep
 def iterateBinsRun {σ : Type} (sb : BinKind → Bool) : σ → List Item → Run σ Item := loop (iterateBinsStep sb)
-def mapBinsRun {σ : Type} (sb : BinKind → Bool) (inner : Item → CellRes) : σ → List Item → Run σ Item :=
-  loop (mapBinsStep sb inner)
+def mapBinsRun {σ : Type} (sb : BinKind → Bool) (inner : Item → CellRes) (dropCtx : Bool) :
+    σ → List Item → Run σ Item := loop (mapBinsStep sb inner dropCtx)
 def runIfRun {σ : Type} (select : Item → Bool) (inner : σ → List Item → Step σ Item) :
     σ → List Item → Run σ Item := loop (runIfStep select inner)
 def mapGroupRun {σ : Type} (inner : σ → List Item → Step σ Item) : σ → List Item → Run σ Item :=
